@@ -283,6 +283,15 @@ def step_continuity(ctx, rule='C19-R6', max_steps=5):
     for e in (de, ue):
         if e.kind != 'store' or tag(e.target) != 'mask':
             raise AnalysisError(rule, f'{q}: the scaled values are not written segment by segment (out[cond] = ...)')
+    # every segment is written, whatever the data: a segment skipped (or the loop left) on a test of the values leaves the
+    # values of that segment NaN - at the boundary of the test (`edge >= max` for a value ON the edge) a hit is lost
+    for nm, e in (('do', de), ('undo', ue)):
+        dep = [l for l in guard_literals(e.guard) if T.contains(l, lambda x: x == V) and
+               not (tag(l) == 'call' and l[1] == ('g', 'numpy.any'))]
+        ctx.check(not dep, rule, q, e.node, e.loc(),
+                  f'{nm}: a segment is only written under {T.show(dep[0], maxlen=120) if dep else ""}, a test of the data: the values '
+                  'of a segment that is skipped stay NaN (a hit turned into a non-detection)',
+                  instance=f'step_scale[{nm}]: every segment is written whatever the data')
     lids = {x[1] for e in (de, ue) for x in T.walk(e.value) if tag(x) == 'lv'}
     if len(lids) != 1:
         raise AnalysisError(rule, f'{q}: segment loop not identified ({sorted(lids)})')
@@ -794,3 +803,63 @@ def interval_contains_data(ctx, rule='C19-R10'):
                           'than the interval are scaled outside [0, 1]',
                           instance='minrange2minmax: the derived (min_val, max_val) enclose the data')
     ctx.floor(rule, 'return alternatives of minrange2minmax', n, 2)
+
+
+def forward_and_backward_sets_distinct(ctx, rule='C19-R11'):
+    """plots.tools.get_scaling_kwargs hands back the parameters of the scaling and those of its inverse: two dictionaries.
+    The second is a copy of the first with mode 'undo' - built from the first *without* a copy it is the same object, both
+    say 'undo', and the parameters derived from the original data un-scale instead of scaling."""
+    fx = effects(ctx)
+    p = ctx.project
+    q = 'ampycloud.plots.tools.get_scaling_kwargs'
+    f = p.func(q, rule)
+    ctx.saw(f)
+    rets = [e for e in fx.deep_events(q) if e.kind == 'return' and not e.ctx]
+    n = 0
+    for e in rets:
+        v = e.value
+        if tag(v) != 'tuple' or len(v[1]) != 2:
+            ctx.violation(rule, q, e.node, e.loc(), f'get_scaling_kwargs returns {T.show(v, maxlen=100)}: not a pair',
+                          instance='get_scaling_kwargs: returns (scale_kwargs, descale_kwargs)')
+            continue
+        n += 1
+        a, b = v[1]
+        base = b
+        while tag(base) == 'upd':
+            base = base[1]
+        base_a = a
+        while tag(base_a) == 'upd':
+            base_a = base_a[1]
+        copied = tag(base) == 'call' and tag(base[1]) == 'g' and base[1][1] in ('copy.deepcopy', 'copy.copy', 'builtins.dict') \
+            or tag(base) == 'dict' or (tag(base) == 'mcall' and base[2] == 'copy')
+        ctx.check(base != base_a or copied, rule, q, e.node, e.loc(),
+                  'the backward parameter set is the forward one under another name (no copy in between): setting its mode to '
+                  "'undo' sets the mode of both", instance='get_scaling_kwargs: the two parameter sets are two objects')
+        ctx.check(_mode_of(a) in (C('do'), None) and _mode_of(b) == C('undo'), rule, q, e.node, e.loc(),
+                  f"the pair carries modes {T.show(_mode_of(a)) if _mode_of(a) is not None else None} / "
+                  f"{T.show(_mode_of(b)) if _mode_of(b) is not None else None}: expected 'do' (or none) for the first and 'undo' for the second",
+                  instance="get_scaling_kwargs: modes 'do' / 'undo'")
+    ctx.floor(rule, 'returns of get_scaling_kwargs', n, 1)
+
+
+def _upd_items(t):
+    out = []
+    while tag(t) == 'upd':
+        tgt = t[2]
+        key = tgt[2] if tag(tgt) in ('sub', 'col') and len(tgt) > 2 else tgt
+        out.append((key if tag(key) == 'c' else C(key) if isinstance(key, str) else key, t[3]))
+        t = t[1]
+    return out
+
+
+def _mode_of(t):
+    for k, v in _upd_items(t):
+        if k == C('mode'):
+            return v
+    while tag(t) == 'upd':
+        t = t[1]
+    if tag(t) == 'dict':                      # {**scale_kwargs, 'mode': 'undo'}
+        for k, v in reversed(t[1]):
+            if k == C('mode'):
+                return v
+    return None
